@@ -355,6 +355,26 @@ func c02Dir(c *rt.Ctx, fsType string, r *rand.Rand, onlyReturns bool) {
 					}
 				}
 				seen = map[string]int{} // a second pass starts after EOF
+				// the directory changes between the passes: whatever a handle does after io.EOF (stay at the end as
+				// os.File does, or start over), a batch asked for from now on never delivers a name that is gone
+				for w := range want {
+					if r.IntN(2) == 0 {
+						_ = v.RemoveAll("/d/" + w)
+						delete(want, w)
+						hist = append(hist, "  RemoveAll(/d/"+w+")")
+						break
+					}
+				}
+				_ = v.WriteFile("/d/zz-new", []byte("y"), 0o644)
+				want["zz-new"] = true
+				hist = append(hist, "  WriteFile(/d/zz-new)")
+			} else {
+				for w, k := range seen {
+					if k > 1 {
+						c.Disagree(fmt.Sprintf("%s|dir-handle|mixed=%v|second-pass-entry-delivered-twice", fsType, mixed), fmt.Sprintf("%s: batches read after io.EOF delivered entry %s %d times before the next io.EOF", fsType, w, k), map[string]any{"fs": fsType, "history": hist})
+						return
+					}
+				}
 			}
 			continue
 		}
